@@ -115,8 +115,19 @@ func md5h(b []byte) KV { return KV{K: "Content-MD5", V: s3c.MD5b64(b)} }
 func LegalHoldXML(status string) string {
 	return `<LegalHold xmlns="http://s3.amazonaws.com/doc/2006-03-01/"><Status>` + status + `</Status></LegalHold>`
 }
+// RetentionXML spells the instant in UTC or with a zone offset (chosen from the instant itself, so that the
+// same call always gives the same document): the date is an ISO 8601 timestamp and an offset is legal.
 func RetentionXML(mode string, until time.Time) string {
-	return `<Retention xmlns="http://s3.amazonaws.com/doc/2006-03-01/"><Mode>` + mode + `</Mode><RetainUntilDate>` + until.UTC().Format("2006-01-02T15:04:05Z") + `</RetainUntilDate></Retention>`
+	ts := until.UTC().Format("2006-01-02T15:04:05Z")
+	switch (until.Unix() / 3600) % 4 {
+	case 1:
+		ts = until.In(time.FixedZone("", -8*3600)).Format("2006-01-02T15:04:05-07:00")
+	case 2:
+		ts = until.In(time.FixedZone("", 2*3600)).Format("2006-01-02T15:04:05-07:00")
+	case 3:
+		ts = until.In(time.FixedZone("", -5*3600-1800)).Format("2006-01-02T15:04:05-07:00")
+	}
+	return `<Retention xmlns="http://s3.amazonaws.com/doc/2006-03-01/"><Mode>` + mode + `</Mode><RetainUntilDate>` + ts + `</RetainUntilDate></Retention>`
 }
 
 const OwnershipXML = `<OwnershipControls xmlns="http://s3.amazonaws.com/doc/2006-03-01/"><Rule><ObjectOwnership>BucketOwnerPreferred</ObjectOwnership></Rule></OwnershipControls>`
